@@ -89,13 +89,13 @@ fn bounds(prop: &str, tier: Tier) -> Bounds {
     let q = tier == Tier::Quick;
     use Family::*;
     // (family, size level, also check the children one ply below)
-    let thorough_families = vec![(PawnPush, 1, true), (OfficerCheck, 1, true), (PromoPin, 0, true), (Pin, 1, true), (EpPlayed, 1, true), (Ep, 1, true), (Castle, 1, true), (Promo, 1, true), (EpCheck, 1, true), (PromoCheck, 1, true), (Three, 0, true)];
+    let thorough_families = vec![(PawnPush, 1, true), (TwoPins, 1, true), (PromoDouble, 1, true), (OfficerCheck, 1, true), (PromoPin, 0, true), (Pin, 1, true), (EpPlayed, 1, true), (Ep, 1, true), (Castle, 1, true), (Promo, 1, true), (EpCheck, 1, true), (PromoCheck, 1, true), (Three, 0, true)];
     match prop {
         "C01" => Bounds {
             start_depth: if q { 4 } else { 6 },
             perft_depth: if q { 2 } else { 4 },
             scenario_depth: if q { 2 } else { 3 },
-            families: if q { vec![(PawnPush, 0, true), (PromoPin, 0, true), (Three, 0, false), (Pin, 0, false), (Ep, 0, false), (EpPlayed, 0, true), (Castle, 0, false), (Promo, 0, false)] } else { thorough_families },
+            families: if q { vec![(PawnPush, 0, true), (TwoPins, 0, false), (PromoDouble, 0, true), (PromoPin, 0, true), (Three, 0, false), (Pin, 0, false), (Ep, 0, false), (EpPlayed, 0, true), (Castle, 0, false), (Promo, 0, false)] } else { thorough_families },
             sweep_stride: 64,
         },
         "C02" => Bounds {
@@ -103,9 +103,9 @@ fn bounds(prop: &str, tier: Tier) -> Bounds {
             perft_depth: if q { 2 } else { 3 },
             scenario_depth: if q { 2 } else { 3 },
             families: if q {
-                vec![(PawnPush, 0, true), (OfficerCheck, 0, true), (PromoPin, 0, true), (EpCheck, 0, true), (PromoCheck, 0, false), (Castle, 0, false)]
+                vec![(PawnPush, 0, true), (TwoPins, 0, false), (PromoDouble, 0, true), (OfficerCheck, 0, true), (PromoPin, 0, true), (EpCheck, 0, true), (PromoCheck, 0, false), (Castle, 0, false)]
             } else {
-                vec![(PawnPush, 1, true), (OfficerCheck, 1, true), (PromoPin, 0, true), (Pin, 0, false), (Ep, 1, false), (Castle, 1, false), (Promo, 1, false), (EpCheck, 1, false), (PromoCheck, 1, false), (Three, 0, false)]
+                vec![(PawnPush, 1, true), (TwoPins, 1, false), (PromoDouble, 1, true), (OfficerCheck, 1, true), (PromoPin, 0, true), (Pin, 0, false), (Ep, 1, false), (Castle, 1, false), (Promo, 1, false), (EpCheck, 1, false), (PromoCheck, 1, false), (Three, 0, false)]
             },
             sweep_stride: 256,
         },
@@ -113,7 +113,7 @@ fn bounds(prop: &str, tier: Tier) -> Bounds {
             start_depth: if q { 4 } else { 6 },
             perft_depth: if q { 2 } else { 4 },
             scenario_depth: if q { 2 } else { 3 },
-            families: if q { vec![(PawnPush, 0, true), (OfficerCheck, 0, true), (PromoPin, 0, true), (Three, 0, false), (Pin, 0, false), (Ep, 0, false), (EpCheck, 0, true), (PromoCheck, 0, true), (Castle, 0, true)] } else { thorough_families },
+            families: if q { vec![(PawnPush, 0, true), (TwoPins, 0, false), (PromoDouble, 0, true), (OfficerCheck, 0, true), (PromoPin, 0, true), (Three, 0, false), (Pin, 0, false), (Ep, 0, false), (EpCheck, 0, true), (PromoCheck, 0, true), (Castle, 0, true)] } else { thorough_families },
             sweep_stride: 64,
         },
         "C04" => Bounds {
@@ -150,7 +150,7 @@ pub fn run(prop: &str, args: &Args) -> i32 {
         } else {
             b.scenario_depth
         };
-        let cfg = E1Config { depth, props, sweep_stride: b.sweep_stride };
+        let cfg = E1Config { depth, props, sweep_stride: b.sweep_stride, dest_filter: None };
         let mut s = vec![];
         let t = run_e1(root, &cfg, &report, &mut s);
         if samples.len() < 6 {
@@ -158,6 +158,31 @@ pub fn run(prop: &str, args: &Args) -> i32 {
         }
         per_root.push(json!({"root": root.name, "depth": depth, "states": t.states, "transitions": t.transitions}));
         totals.merge(&t);
+    }
+    // histories that matter for castling rights explored DEEP over a small move alphabet: a pawn
+    // captures a home rook while promoting (the right goes although neither king nor rook moved),
+    // the other rook later walks to the empty corner with the king still at home, ... ; moves are
+    // followed only when they land on a dozen squares around the home corners, the castling squares or
+    // two squares for the other king to shuffle on (every transition is checked regardless)
+    if matches!(prop, "C01" | "C02" | "C03") && !reduced() {
+        let corner = |s: &[&str]| -> u64 { s.iter().fold(0u64, |a, x| a | 1u64 << ((x.as_bytes()[1] - b'1') * 8 + (x.as_bytes()[0] - b'a'))) };
+        let white_home = corner(&["a1", "b1", "c1", "f1", "g1", "h1", "a2", "b2", "g2", "h2", "b3", "g3", "e8", "d8"]);
+        let black_home = corner(&["a8", "b8", "c8", "f8", "g8", "h8", "a7", "b7", "g7", "h7", "b6", "g6", "e1", "d1"]);
+        for (fen, mask) in [
+            ("4k3/8/8/8/8/8/6p1/R3K2R b KQ - 0 1", white_home),
+            ("4k3/8/8/8/8/8/1p6/R3K2R b KQ - 0 1", white_home),
+            ("r3k2r/6P1/8/8/8/8/8/4K3 w kq - 0 1", black_home),
+            ("r3k2r/1P6/8/8/8/8/8/4K3 w kq - 0 1", black_home),
+        ] {
+            let root = Root { name: format!("rights-history:{fen}"), pos: Position::from_fen(fen).unwrap() };
+            let mut hp = props;
+            hp.carry_played = true;
+            let cfg = E1Config { depth: if args.tier == Tier::Quick { 8 } else { 10 }, props: hp, sweep_stride: 1 << 20, dest_filter: Some(mask) };
+            let mut s = vec![];
+            let t = run_e1(&root, &cfg, &report, &mut s);
+            per_root.push(json!({"root": root.name, "depth": cfg.depth, "states": t.states, "transitions": t.transitions, "followed_moves_restricted_to_destination_set": true}));
+            totals.merge(&t);
+        }
     }
     let e1_states = totals.states;
     eprintln!("[{prop}] E1 done: {} states, {:.1}s", e1_states, report.start.elapsed().as_secs_f64());
@@ -172,7 +197,7 @@ pub fn run(prop: &str, args: &Args) -> i32 {
         child_props.full_sweep = false;
         let mut root_props = props;
         root_props.full_sweep = false;
-        let special_only = args.tier == Tier::Quick && prop != "C01" && *fam != Family::PawnPush && *fam != Family::PromoPin && *fam != Family::OfficerCheck;
+        let special_only = args.tier == Tier::Quick && prop != "C01" && *fam != Family::PawnPush && *fam != Family::PromoPin && *fam != Family::OfficerCheck && *fam != Family::TwoPins && *fam != Family::PromoDouble;
         let t = run_family(*fam, *level, &root_props, if *children { Some(&child_props) } else { None }, special_only, &report, &mut samples);
         fam_json.push(json!({"family": format!("{fam:?}"), "level": level, "transitions_restricted_to_special_moves": args.tier == Tier::Quick && prop != "C01", "positions": t.family_positions, "states_checked": t.states, "transitions": t.transitions, "rejected_as_invalid": t.family_rejected_invalid}));
         totals.merge(&t);
